@@ -36,7 +36,7 @@ pub(crate) fn parse_key(raw: &str) -> Result<crate::Key, TomlError> {
     use prelude::*;
 
     let b = new_input(raw);
-    let result = key::simple_key.parse(b.clone());
+    let result = complete(key::simple_key.context(StrContext::Label("key"))).parse(b.clone());
     match result {
         Ok((raw, key)) => {
             Ok(crate::Key::new(key).with_repr_unchecked(crate::Repr::new_unchecked(raw)))
@@ -49,7 +49,7 @@ pub(crate) fn parse_key_path(raw: &str) -> Result<Vec<crate::Key>, TomlError> {
     use prelude::*;
 
     let b = new_input(raw);
-    let result = key::key.parse(b.clone());
+    let result = complete(key::key).parse(b.clone());
     match result {
         Ok(mut keys) => {
             for key in &mut keys {
@@ -65,7 +65,7 @@ pub(crate) fn parse_value(raw: &str) -> Result<crate::Value, TomlError> {
     use prelude::*;
 
     let b = new_input(raw);
-    let parsed = value::value.parse(b.clone());
+    let parsed = complete(value::value).parse(b.clone());
     match parsed {
         Ok(mut value) => {
             // Only take the repr and not decor, as its probably not intended
@@ -75,6 +75,20 @@ pub(crate) fn parse_value(raw: &str) -> Result<crate::Value, TomlError> {
         }
         Err(e) => Err(TomlError::new(e, b)),
     }
+}
+
+/// Like the implicit end-of-input check of `Parser::parse` but with a message for what is left over
+fn complete<'i, O>(
+    parser: impl prelude::ModalParser<prelude::Input<'i>, O, winnow::error::ContextError>,
+) -> impl prelude::ModalParser<prelude::Input<'i>, O, winnow::error::ContextError> {
+    use prelude::*;
+
+    winnow::combinator::terminated(
+        parser,
+        winnow::combinator::eof.context(StrContext::Expected(StrContextValue::Description(
+            "end of input",
+        ))),
+    )
 }
 
 pub(crate) mod prelude {
